@@ -68,7 +68,7 @@ Local Opaque plot.
 Lemma translate_within s ch s' : 0 <= cur_x s -> translate s ch = Ok s' -> within s s' 1 0 0.
 Proof.
   intros Hx H. unfold translate in H. destruct (ch <? 63); [discriminate|]. destruct (length (pal s) =? 0)%nat; [discriminate|].
-  cbv zeta in H. bind_inv H. bind_inv H. bind_inv H. inversion H; subst; clear H. unfold chk in *.
+  cbv zeta in H. bind_inv H. bind_inv H. destruct (_ || _); [discriminate|]. bind_inv H. inversion H; subst; clear H. unfold chk in *.
   destruct ((cur_y s * 6 <=? I32_MAX) && (- I32_MAX - 1 <=? cur_y s * 6)); [|discriminate]. inversion E; subst; clear E.
   destruct ((cur_y s * 6 + 6 <=? I32_MAX) && (- I32_MAX - 1 <=? cur_y s * 6 + 6)); [|discriminate]. inversion E0; subst; clear E0.
   destruct ((cur_x s + 1 <=? I32_MAX) && (- I32_MAX - 1 <=? cur_x s + 1)); [|discriminate]. inversion E1; subst; clear E1.
@@ -111,6 +111,9 @@ Proof.
     replace (Z.of_nat (S n)) with (1 + Z.of_nat n) by lia. exact W.
 Qed.
 
+Lemma sixel_raster_refused_l s v h rest : nums s = v :: h :: rest -> existsb (fun n => MAX_SIXEL_DIMENSION <? n) rest = true -> finish_size s = Err 3.
+Proof. intros HN HE. unfold finish_size. cbv zeta. rewrite HN. destruct (_ || _); [reflexivity|]. rewrite HE. reflexivity. Qed.
+
 Section S.
 Variable hsl : Z -> Z -> Z -> rgb.
 
@@ -135,7 +138,7 @@ Lemma finish_size_within s s' : 0 <= cur_x s -> finish_size s = Ok s' ->
 Proof.
   intros Hx H. unfold finish_size in H. cbv zeta in H.
   destruct ((length (nums s) <? 2)%nat || (4 <? length (nums s))%nat); [discriminate|].
-  destruct (nums s) as [|v [|h rest]] eqn:EN; try discriminate.
+  destruct (nums s) as [|v [|h rest]] eqn:EN; try discriminate. destruct (existsb _ rest); [discriminate|].
   inversion H; subst; clear H. cbn [cur_x cur_y rows nums set_st]. unfold declare.
   pose proof (height_nonneg (rows s)). pose proof (mxl_nonneg (rows s)).
   destruct rest as [|a [|b [|c t]]]; cbn [cur_x cur_y rows nums set_scale set_rows fst snd]; rewrite ?EN; repeat split; try lia.
@@ -145,7 +148,7 @@ Proof.
   - unfold mxl, zeros. pose proof (max_len_resize (Z.to_nat b) (repeat 0%N (4 * Z.to_nat a)) (rows s)) as HR. rewrite repeat_length in HR. lia.
 Qed.
 Lemma rep_of_nonneg s ch : 0 <= rep_of s ch.
-Proof. unfold rep_of. destruct (st s); try lia. destruct (is_digit ch); [lia|]. destruct (nums s); lia. Qed.
+Proof. unfold rep_of. destruct (st s); try lia. destruct (is_digit ch); [lia|]. destruct (nums s) as [|i r]; [lia|]. destruct (_ <? i); lia. Qed.
 Lemma decl_of_nonneg s ch : 0 <= fst (decl_of s ch) /\ 0 <= snd (decl_of s ch).
 Proof.
   unfold decl_of. destruct (st s); cbn; try lia. destruct (_ || _); cbn; [lia|]. destruct (nums s) as [|a [|b [|c [|d [|e r]]]]]; cbn; lia.
@@ -165,7 +168,7 @@ Proof.
     assert (0 <= fst d /\ 0 <= snd d) by (subst d; destruct (nums s) as [|a [|b [|c [|dd [|e r]]]]]; cbn; lia).
     repeat split; lia.
   - destruct (is_digit ch); [cbn [fst snd]; inversion H; apply within_same; auto; lia|].
-    destruct (nums s) as [|i r] eqn:EN; [discriminate|]. cbn [fst snd]. bind_as H s0 E. inversion H; subst; clear H.
+    destruct (nums s) as [|i r] eqn:EN; [discriminate|]. destruct (MAX_SIXEL_DIMENSION <? i); [discriminate|]. cbn [fst snd]. bind_as H s0 E. inversion H; subst; clear H.
     pose proof (repeat_data_within _ _ _ _ Hx E) as W. apply (within_weaken _ _ (Z.of_nat (Z.to_nat i)) 0 0); try lia.
     unfold within in *. cbn [cur_x cur_y rows set_st]. exact W.
 Qed.
@@ -192,12 +195,12 @@ Qed.
 Lemma parse_char_t_fst s ch : fst (parse_char_t hsl s ch) = parse_char hsl s ch.
 Proof.
   unfold parse_char_t, parse_char. destruct (st s); try reflexivity. destruct (is_digit ch); [reflexivity|]. destruct (nums s) as [|i r]; [reflexivity|].
-  cbn [fst]. rewrite CostProofs.repeat_data_t_fst. reflexivity.
+  destruct (MAX_SIXEL_DIMENSION <? i); [reflexivity|]. cbn [fst]. rewrite CostProofs.repeat_data_t_fst. reflexivity.
 Qed.
 Lemma parse_char_t_snd s ch : 1 <= snd (parse_char_t hsl s ch) <= 1 + rep_of s ch.
 Proof.
   unfold parse_char_t, rep_of. destruct (st s); cbn [snd]; try lia. destruct (is_digit ch); cbn [snd]; [lia|]. destruct (nums s) as [|i r]; cbn [snd]; [lia|].
-  pose proof (repeat_data_t_snd_le (Z.to_nat i) s ch 0). lia.
+  destruct (MAX_SIXEL_DIMENSION <? i); cbn [snd]; [lia|]. pose proof (repeat_data_t_snd_le (Z.to_nat i) s ch 0). lia.
 Qed.
 Lemma parse_chars_t_spec cs : forall s k, fst (parse_chars_t hsl s cs k) = parse_chars hsl s cs /\
   k <= snd (parse_chars_t hsl s cs k) <= k + zlenN cs + rep_sum hsl s cs.
@@ -257,4 +260,36 @@ Proof.
   rewrite HD. change (cur_x s0) with 0 in *. change (cur_y s0) with 0 in *. change (rows s0) with (@nil (list N)) in *. change (height []) with 0 in *. change (mxl []) with 0 in *.
   fold T in W1, W2, W3, W4. pose proof (height_nonneg (rows s2)). pose proof (mxl_nonneg (rows s2)). assert (0 <= T) by (subst T; unfold zlenN; lia). nia.
 Qed.
+(* ---- after the fix (MAX_SIXEL_DIMENSION): bounds without the numbers of the payload -------------------------------------------------------- *)
+Lemma rep_of_le s ch : 0 <= rep_of s ch <= MAX_SIXEL_DIMENSION.
+Proof.
+  unfold rep_of. destruct (st s); try (unfold MAX_SIXEL_DIMENSION; lia). destruct (is_digit ch); [unfold MAX_SIXEL_DIMENSION; lia|].
+  destruct (nums s) as [|i r]; [unfold MAX_SIXEL_DIMENSION; lia|]. destruct (MAX_SIXEL_DIMENSION <? i) eqn:E; [unfold MAX_SIXEL_DIMENSION; lia|].
+  apply Z.ltb_ge in E. unfold MAX_SIXEL_DIMENSION in *. lia.
+Qed.
+Lemma rep_sum_le cs : forall s, 0 <= rep_sum hsl s cs <= zlenN cs * MAX_SIXEL_DIMENSION.
+Proof.
+  induction cs as [|c t IH]; intro s; cbn [rep_sum]; [unfold zlenN; cbn; lia|]. pose proof (rep_of_le s c) as HR.
+  assert (HT : 0 <= match parse_char hsl s c with Ok s' => rep_sum hsl s' t | _ => 0 end <= zlenN t * MAX_SIXEL_DIMENSION).
+  { destruct (parse_char hsl s c) as [s0| |]; [apply IH| |]; unfold zlenN, MAX_SIXEL_DIMENSION; lia. }
+  unfold zlenN in *. cbn [length]. unfold MAX_SIXEL_DIMENSION in *. lia.
+Qed.
+Lemma sixel_ticks_bound_abs_l s cs : 0 <= snd (parse_chars_t hsl s cs 0) <= zlenN cs * (1 + MAX_SIXEL_DIMENSION).
+Proof. pose proof (sixel_ticks_bound_l s cs). pose proof (rep_sum_le cs s). lia. Qed.
+Lemma sixel_alloc_bound_abs_l s cs s' : InvB (rows s) -> parse_chars hsl s cs = Ok s' ->
+  sixel_bytes (rows s') <= 4 * MAX_SIXEL_DIMENSION * MAX_SIXEL_DIMENSION.
+Proof.
+  intros HB H. destruct (parse_chars_InvB hsl cs s s' HB H) as [Hh Hf]. pose proof (max_len_le_B _ Hf) as HM.
+  pose proof (sixel_bytes_le (rows s')) as HS. pose proof (height_nonneg (rows s')). pose proof (mxl_nonneg (rows s')). unfold mxl in *. nia.
+Qed.
+Lemma sixel_alloc_bound_abs_init_l pal0 vs hs cs s' : parse_chars hsl (init_state pal0 vs hs) cs = Ok s' ->
+  sixel_bytes (rows s') <= 4 * MAX_SIXEL_DIMENSION * MAX_SIXEL_DIMENSION.
+Proof. apply sixel_alloc_bound_abs_l. split; [unfold height, MAX_SIXEL_DIMENSION; cbn; lia|constructor]. Qed.
+Lemma sixel_image_bound_abs_l pal0 vs hs data w h d : parse_from hsl pal0 vs hs data = Ok (w, h, d) ->
+  zlenN d <= 4 * MAX_SIXEL_DIMENSION * MAX_SIXEL_DIMENSION.
+Proof.
+  intro H. pose proof (sixel_rect_proof hsl _ _ _ _ _ _ _ H) as HR. destruct (sixel_dims_bounded_proof hsl _ _ _ _ _ _ _ H) as [HW HH].
+  unfold zlenN. rewrite HR. nia.
+Qed.
+
 End S.
